@@ -213,6 +213,9 @@ impl Check for NftConsecutive {
     fn components(&self) -> serde_json::Value {
         serde_json::json!({"real": ["examples/nft-consecutive (from source)", "non_fungible::{Base, consecutive::Consecutive, sequential, burnable}"], "stub": ["Wallet"]})
     }
+    fn probes(&self, _prop: &str) -> std::vec::Vec<&'static str> {
+        vec!["probe.batch_crosses_bucket", "probe.full_sweep"]
+    }
     fn dup_ok(&self, _s: &Step) -> bool {
         true
     }
